@@ -78,6 +78,8 @@ def evaluate(spec):
     kinds = sorted(c["kind"] for c in spec["conns"])
     labels = ["n:%d" % len(spec["conns"]), "mix:" + "+".join(sorted(set(kinds))), "alternations:%s" % ("<3" if alt < 3 else "3-10" if alt <= 10 else ">10"),
               "topology:" + spec.get("topology", "?")]
+    if sum(1 for c in spec["conns"] if c.get("share_cids")) >= 2:
+        labels.append("quic-connections-with-equal-cids")
     return {"sig": sig, "detail": detail, "nontrivial": exporting >= 2 and alt >= 3, "labels": labels, "evals": evals}
 
 
@@ -89,6 +91,9 @@ def spec_strategy(draw, tier):
     base = draw(strategies.endpoints(idx=0, v6=v6))
     conns = []
     used = set()
+    # connection IDs are chosen per endpoint, nothing keeps two connections from choosing the same ones
+    share = draw(st.sampled_from([None, None, None, 1, 2]))
+    share_lens = None
     for i in range(n):
         k = draw(st.sampled_from(["tls", "tls", "quic", "quic", "noise"])) if i >= 2 else draw(st.sampled_from(["tls", "quic"]))
         topo = topology if topology != "mixed" else draw(st.sampled_from(["distinct", "same-hosts", "same-client-port", "same-server", "swapped-roles"]))
@@ -122,6 +127,10 @@ def spec_strategy(draw, tier):
                                          delivery=strategies.tcp_delivery(modes=("rec", "cuts", "flight"), wrap=True, dups=True)))
         elif k == "quic":
             c = draw(strategies.quic_conn(max_steps=6, ep=st.just(ep)))
+            if share:
+                share_lens = share_lens or (c["c_scid_len"], c["s_scid_len"])
+                c["share_cids"] = 1000 + share
+                c["c_scid_len"], c["s_scid_len"] = share_lens
         else:
             c = {"kind": "noise", "what": draw(st.sampled_from(["http", "tcp_other", "dns", "udp_rand", "arp"])), "seed": draw(st.integers(0, 1 << 20)),
                  "n": draw(st.integers(1, 4)), "ep": ep}
